@@ -298,7 +298,9 @@ fn c21_one(out: &mut Out, id: u64, bytes: &[u8], scratch: &Path, m: &Value, qs: 
             Ok((Err(e), _)) => { res["verify"] = json!(format!("err:{}", crate::drive::hist::err_kind(&e))); }
             Err(pn) => { res["verify"] = json!("panic"); panics.push(pn); }
         }
-        match call(out, id, "doctor-again", || Memvid::doctor(&p, doctor_opts(mask))) {
+        // idempotence: nothing may be left to heal. The second run uses the default options - a run that is
+        // told to rebuild an index or to vacuum does so again and truthfully reports that it did something.
+        match call(out, id, "doctor-again", || Memvid::doctor(&p, doctor_opts(0))) {
             Ok((Ok(r), _)) => { res["doctor2"] = json!(dstatus(&r.status)); res["doctor2_findings"] = json!(r.findings.iter().take(6).map(|f| format!("{:?}", f.code)).collect::<Vec<_>>()); }
             Ok((Err(e), _)) => { res["doctor2"] = json!(format!("err:{}", crate::drive::hist::err_kind(&e))); }
             Err(pn) => { res["doctor2"] = json!("panic"); panics.push(pn); }
